@@ -181,4 +181,21 @@ GenIdentity(seed) ==
          m == <<a[1], a[2], "A">>
      IN [class |-> "alpha", rule |-> Rule(<<Mx(<<m>>)>>, <<Mx(<<m>>)>>, GenEnvs(seed, 8, TRUE), GenExc(seed, 9))]
   ELSE [class |-> "alpha-syl", rule |-> Rule(<<SylEl(<<<<"s", "stress", "A">>>>)>>, <<Mx(<<<<"s", "stress", "A">>>>)>>, GenEnvs(seed, 8, TRUE), GenExc(seed, 9))]
+
+(* C10: "observer pairs" - an earlier rule writes a property (feature, length, stress, tone) that a later rule reads in its input or context. *)
+(* Staging puts a text boundary between the two, so anything the rendering loses becomes visible.                                             *)
+GenObserverPair(seed) ==
+  LET c == Pick(seed, 3, 4)
+      m == CASE c = 1 -> <<"f", FeatPool[Pick(seed, 4, Len(FeatPool))], Chance(seed, 5, 1, 2)>>
+             [] c = 2 -> GenLenMod(seed, 4)
+             [] c = 3 -> GenStressMod(seed, 4)
+             [] OTHER -> GenToneMod(seed, 4)
+      onSyl == c >= 3 /\ Chance(seed, 6, 1, 2)
+      target == IF onSyl THEN SylEl(<<>>) ELSE IF Chance(seed, 7, 1, 2) THEN Grp(9) ELSE GenSeg(seed, 8)
+      writer == Rule(<<target>>, <<Mx(<<m>>)>>, GenEnvs(seed, 9, TRUE), <<>>)
+      obs == IF onSyl THEN SylEl(<<m>>) ELSE WithMods(IF Chance(seed, 10, 1, 2) THEN Grp(9) ELSE Mx(<<>>), <<m>>)
+      reader == IF Chance(seed, 11, 1, 2)
+                THEN Rule(<<obs>>, <<IF onSyl THEN Mx(<<GenToneMod(seed, 12)>>) ELSE GenOutSeg(seed, 12)>>, <<>>, <<>>)
+                ELSE Rule(<<GenSeg(seed, 13)>>, <<GenOutSeg(seed, 14)>>, <<IF Chance(seed, 15, 1, 2) THEN Env(<<obs>>, <<>>) ELSE Env(<<>>, <<obs>>)>>, <<>>)
+  IN <<writer, reader>>
 =============================================================================
